@@ -56,6 +56,8 @@ def run_main(argv, stdin_text=""):
 
 
 def run_subprocess(argv, stdin_text=""):
+    if any("\x00" in a for a in argv):
+        return run_main(argv, stdin_text)  # a process argument cannot carry NUL
     env = dict(os.environ)
     p = subprocess.run([sys.executable, "-m", "celpy"] + list(argv), input=stdin_text, capture_output=True, text=True, env=env, timeout=120)
     return p.returncode, p.stdout, p.stderr
